@@ -400,6 +400,7 @@ func specC06() *propertySpec {
 			{"C06-R10", "same-generator-in-the-next-run: the replay of the fail file draws from freshly constructed generators, the saved buffer was minimised against generators every earlier test case and shrink attempt of the failing run had drawn from: same drawn values only if no draw stores through or hands out generator-owned storage (shared with C15-R3)", ruleC15R3},
 			{"C06-R11", "the-saved-case-replays-as-it-was-judged: what is written to the fail file is the pruned recording; the next run draws the same values and fails the same way only if pruning is replay-neutral (shared with C04-R4.4/R4.5/R4.6/R4.7/R4.8/R5, C03-R2)", rulePruneBundle},
 			{"C06-R12", "the-next-run-builds-the-same-generators: the replay in the next run draws from generators constructed anew in that process; their tables are the same only if construction is deterministic (no map iteration, no nondeterminism source in the constructors) (shared with C07-R8)", ruleConstructionCensus},
+			{"C06-R13", "the-save-can-succeed-wherever-testdata-lives: the temporary file is created in the directory of the final name, so the publishing rename never crosses a file system (shared with C16-R4) — staged in os.TempDir it fails with EXDEV on every machine whose temp directory is another file system, the error is only logged, and no fail file exists for the next run", ruleC16R4},
 			{"C06-R6", "saved-is-reported: captureTestOutput/saveFailFile/final replay use doCheck's buffer (#5) and seed (#3); saved iff failfile == \"\" && !nofailfile; target failFileName(tb.Name())", func(r *Run) { ruleC01R1(r); ruleC06R6(r) }},
 		},
 	}
@@ -1194,7 +1195,6 @@ func ruleC06R5(r *Run) {
 	r.Floor("fail-file returns in doCheck", n, 1)
 }
 
-
 func dominatesBlock(a, b *ssa.BasicBlock) bool { return a.Dominates(b) }
 
 func ruleC06R6(r *Run) {
@@ -1281,6 +1281,7 @@ func specC17() *propertySpec {
 			{"C17-R5", "no-crash: panics during replay are converted (recover census); an exhausted buffer raises invalidData", func(r *Run) { ruleC02R4(r); ruleC03R4(r) }},
 			{"C17-R6", "only-a-reproduced-failure-ends-the-fail-file-phase: doCheck returns from the replay loop only when one of checkFailFile's errors is non-nil, and moves on only when both are nil (shared with C06-R5)", ruleC06R5},
 			{"C17-R7", "truncation-stays-invalid: a fail file cut off at a group boundary makes the group's first draw panic with invalidData; no endGroup runs on that panic path (deferred), where its assertion would replace the panic and make Check fail with an internal error instead of ignoring the file (shared with C13-R9)", ruleNoDeferredEndGroup},
+			{"C17-R8", "a-cut-inside-a-rejected-attempt-stays-invalid: a fail file that ends where a Custom / Filter attempt begins makes that attempt overrun before its first draw; the attempt is rejected and its empty group closed as discarded — endGroup's 'used data' assertion exempts discarded groups in both recording modes (shared with C13-R6), otherwise the truncated file is reported as a reproduced failure", ruleEndGroupAssertExempt},
 		},
 	}
 }
